@@ -1,21 +1,30 @@
 """py2v plug-in `geometry`: FAIL-CLOSED translation of the float geometry code of PyAutoArray to Gallina over NumOps.
 
 Emits coq/Gen/Gen_geometry.v from
-  autoarray/geometry/geometry_util.py   (scalar conversions, the slim-grid conversion loops)
-  autoarray/geometry/geometry_2d.py     (Geometry2D: shape_native_scaled, scaled_maxima, scaled_minima, extent)
-  autoarray/geometry/geometry_1d.py     (Geometry1D: the same four properties)
-  autoarray/mask/mask_2d_util.py        (mask_2d_centres_from; the circular / annular / anti-annular constructor loops)
-  autoarray/structures/grids/grid_2d_util.py, grid_1d_util.py  (pixel-centre grids from a mask)
+  autoarray/geometry/geometry_util.py   (scalar conversions, the slim-grid conversion loops, the native 3-D index loop)
+  autoarray/geometry/geometry_2d.py     (Geometry2D: the extent properties, central coordinates, the scalar and grid METHODS)
+  autoarray/geometry/geometry_1d.py     (Geometry1D: the four extent properties)
+  autoarray/mask/mask_2d_util.py        (mask_2d_centres_from; the circular / annular / anti-annular / elliptical constructor loops)
+  autoarray/mask/mask_2d.py, mask_1d.py (the classmethod constructors all_false / circular / ... / elliptical_annular, .geometry)
+  autoarray/mask/derive/{mask_2d,grid_2d,mask_1d}.py   (derive_mask.all_false, derive_grid.all_false / unmasked)
+  autoarray/structures/grids/grid_2d_util.py, grid_1d_util.py  (pixel-centre grids from a mask / from a shape)
+  autoarray/structures/grids/uniform_2d.py, uniform_1d.py      (Grid2D / Grid1D .from_mask, .uniform)
 
 Scope (everything else raises py2v.Fail naming the node -- never guessed):
-  * straight-line functions: `name = expr` assignments, a final `return expr`; docstrings skipped;
+  * straight-line functions / methods / classmethods / properties: `name = expr` assignments (local `from autoarray.x import Class` lines are
+    skipped), a final `return expr`; docstrings skipped; every default in a translated signature must be an all-zero tuple, False or None;
   * expressions: int / float constants (floats must be dyadic, emitted as exact fractions), names, tuples, constant
-    subscripts of tuples, + - * / unary -, x**2, int(), float(), np.sqrt, comparisons (also chained), and/or/not,
-    keyword calls of other translated functions, `self.<attr>` inside the pinned geometry classes;
-  * three loop shapes, recognised literally (see LOOPS below): the row-wise map over a slim grid, the masked
-    row-major gather with a running index, and the `np.full(shape, True)` + conditional `= False` double loop.
-Types are declared (SPEC tables), not inferred: Z (python int), T (python/numpy float -> NumOps carrier), tuples of these,
-`grid` = list (T*T), `vec` = list T, `mask` = list (list bool).  A python 1-tuple is its single component.
+    subscripts of tuples, + - * / unary -, x**2, int(), float(), np.sqrt, np.array(x) (values of an object / identity on tuples),
+    np.full(shape, bool), a.astype('int'), comparisons (also chained), and/or/not, keyword calls of other translated functions
+    (module-qualified, `cls.m(...)`, `Class.m(...)`, `self.m(...)`), constructor calls of the object classes, attributes of objects from a
+    fixed table (ATTRS) or translated properties (OBJPROPS), `self.<attr>` inside the pinned geometry classes;
+  * four loop shapes, recognised literally (see the tr_* functions): the row-wise map over a slim grid, the row-of-rows map over a native grid,
+    the masked row-major gather with a running index, and the `np.full(shape, True)` + conditional `= False` double loop.
+Types are declared (plan tables in gen_geometry), not inferred: Z (python int), T (python/numpy float -> NumOps carrier), tuples of these,
+`grid` = list (T*T), `vec` = list T, `mask` = list (list bool), `grid3` = list (list (T*T)), and OBJECTS = the tuple of what the constructor
+stores (Mask2D = (content, pixel_scales, origin), Grid2D = (slim values, mask object), ...: see the header of the generated file, which also
+states the pinned glue and the constructor contract).  A python 1-tuple is its single component.  An `over_sampling` parameter is opaque:
+it may only be handed on and is not represented.
 Semantics kept: operation ORDER and association exactly as written (so that exact-rational execution follows the
 code's own arithmetic), `int()` = truncation toward zero (NumOps.trunc), `/` = NumOps.div (division by zero is not
 modelled: theorems carry `pixel_scale > 0`), values written into a float array by `a[i] = int(..)` are re-injected by ofZ.
